@@ -106,6 +106,10 @@ func c08(r *mon.Run) {
 		add(n, bounds, 6)
 	}
 	add(3, bounds, 1)
+	// ... and on Go typed slices (the reflection walk is a loop of its own) and inside a list projection
+	add(4, bounds, 4)
+	add(3, bounds, 5)
+	add(2, bounds, 2)
 	if r.Tier == "thorough" {
 		for _, n := range []int{2, 4} {
 			for _, form := range []int{1, 2, 4, 5} {
